@@ -774,7 +774,7 @@ Section Robust.
     (forall i, PL i /\ match i with TCons t _ => PT t | TNil => True end) /\ (forall f, PF f).
   Proof.
     apply ty_mutind.
-    - exact I.
+    - intros p. exact I.
     - intros n r f IH. exact IH.
     - intros d cn n c [_ IH]. exact IH.
     - intros i [IH1 IH2] o. split; [now apply POR_of|exact IH1].
@@ -787,4 +787,453 @@ Section Robust.
   Lemma tc_or_R a b : tc_or_ok a b = true -> tc_le a (tc_or a b) /\ tc_le b (tc_or a b).
   Proof. exact (proj1 (proj1 (proj2 merges_R) b) a). Qed.
 
+  (* ------------------------------- (3) every value fits its own contribution -- *)
+  Variables pascal sing : pstr -> pstr.
+  Variable isnumeric : pstr -> bool.
+
+  Local Notation kinds := (kinds_of_string as_date_ok as_time_ok as_datetime_ok isnumeric is_float bool_values fs).
+  Local Notation scalar_c := (scalar_contrib as_date_ok as_time_ok as_datetime_ok isnumeric is_float bool_values fs).
+  Local Notation objc := (obj_contribs snake pascal sing as_date_ok as_time_ok as_datetime_ok isnumeric is_float bool_values fs).
+  Local Notation arrc := (arr_contribs snake pascal sing as_date_ok as_time_ok as_datetime_ok isnumeric is_float bool_values fs).
+  Local Notation obj_ok := (obj_merges_ok snake pascal sing as_date_ok as_time_ok as_datetime_ok isnumeric is_float bool_values fs).
+  Local Notation arr_ok := (arr_merges_ok snake pascal sing as_date_ok as_time_ok as_datetime_ok isnumeric is_float bool_values fs).
+  Local Notation str_ok := (strings_ok as_date_ok as_time_ok as_datetime_ok isnumeric is_float bool_values fs int_ok).
+  Local Notation str_ok_l := (strings_ok_l as_date_ok as_time_ok as_datetime_ok isnumeric is_float bool_values fs int_ok).
+  Local Notation str_ok_m := (strings_ok_m as_date_ok as_time_ok as_datetime_ok isnumeric is_float bool_values fs int_ok).
+  Local Notation string_ok1 := (string_ok as_date_ok as_time_ok as_datetime_ok isnumeric is_float bool_values fs int_ok).
+
+  Lemma tc_append_le c t : tc_le c (tc_append c t).
+  Proof.
+    destruct c as [i o]. intros v H. unfold tc_append. cbn [tc_items tc_opt].
+    apply R_tc_split in H as [[-> E]|H]; [exact E|]. now apply R_tc_Ri, Ri_append_self.
+  Qed.
+
+  Lemma tc_le_trans a b c : tc_le a b -> tc_le b c -> tc_le a c.
+  Proof. intros H1 H2 v H. auto. Qed.
+
+  Lemma fold_append_le ps : forall c, tc_le c (fold_left (fun acc p => tc_append acc (TPrim p)) ps c).
+  Proof.
+    induction ps as [|p r IH]; intros c; cbn [fold_left]; [apply tc_le_refl|].
+    eapply tc_le_trans; [apply tc_append_le|apply IH].
+  Qed.
+
+  Lemma tc_add_le c x : tc_le c (tc_add c x).
+  Proof.
+    destruct x as [|ps|t]; cbn [tc_add].
+    - destruct c as [i o]. intros v H. unfold tc_append_null. cbn [tc_items].
+      apply R_tc_split in H as [[-> E]|H]; [reflexivity|now apply R_tc_Ri].
+    - apply fold_append_le.
+    - apply tc_append_le.
+  Qed.
+
+  Lemma fold_append_has q p ps : In p ps -> q (TPrim p) = true ->
+    forall c, tys_exists q (tc_items (fold_left (fun acc p => tc_append acc (TPrim p)) ps c)) = true.
+  Proof.
+    induction ps as [|p0 r IH]; intros Hin Hq c; [destruct Hin|]. cbn [fold_left].
+    destruct Hin as [->|Hin]; [|now apply IH].
+    assert (H0 : tys_exists q (tc_items (tc_append c (TPrim p))) = true).
+    { destruct c as [i o]. unfold tc_append. cbn [tc_items]. now apply tys_exists_append_new. }
+    clear IH. revert H0. generalize (tc_append c (TPrim p)). induction r as [|p1 r IH]; intros c0 H0; [exact H0|].
+    cbn [fold_left]. apply IH. destruct c0 as [i o]. unfold tc_append. cbn [tc_items] in *. now apply tys_exists_append.
+  Qed.
+
+  (* possible_types_for_string_value: either `str` is among the types, or the
+     single type is one a string may stand for *)
+  Lemma kinds_cases s : In PStr (kinds s) \/ exists p, kinds s = [p] /\ stringy fs p = true.
+  Proof.
+    unfold kinds_of_string.
+    destruct (as_date_ok s); [right; exists PDate; split; reflexivity|].
+    destruct (negb (has_colon s)).
+    - destruct (isnumeric s).
+      { destruct fs eqn:E; [right; exists PInt; split; reflexivity|left; cbn; auto]. }
+      destruct (is_float s).
+      { destruct fs eqn:E; [right; exists PFloat; split; reflexivity|left; cbn; auto]. }
+      destruct (can_be_bool bool_values s).
+      { destruct fs eqn:E; [right; exists PBool; split; reflexivity|left; cbn; auto]. }
+      left; cbn; auto.
+    - destruct (as_time_ok s); [right; exists PTime; split; reflexivity|].
+      destruct (as_datetime_ok s); [right; exists PDatetime; split; reflexivity|].
+      left; cbn; auto.
+  Qed.
+
+  (* Good x v: the contribution x serves the value v *)
+  Definition Good (x : contrib) (v : json) : Prop :=
+    match x with
+    | CTy t => head_R t v = true
+    | _ => forall c, R_tc (tc_add c x) v = true
+    end.
+
+  Lemma good_add c x v : Good x v -> tc_add_ok c x = true -> R_tc (tc_add c x) v = true.
+  Proof.
+    destruct x as [|ps|t]; cbn [Good tc_add_ok]; [auto|auto|].
+    intros H Hok. destruct c as [i o]. cbn [tc_add]. unfold tc_append. cbn [tc_items tc_opt].
+    apply R_tc_Ri. now apply Ri_append_other.
+  Qed.
+
+  Lemma existsb_is_pstr ps : existsb is_pstr ps = true -> In PStr ps.
+  Proof.
+    induction ps as [|p r IH]; cbn [existsb]; [discriminate|]. intros H.
+    apply orb_true_iff in H as [H|H]; [left; destruct p; try discriminate; reflexivity|right; auto].
+  Qed.
+
+  Lemma good_scalar v : str_ok v = true ->
+    match v with JArr _ | JObj _ => True | _ => Good (scalar_c v) v end.
+  Proof.
+    intros Hs. destruct v as [|b|z|iv r0|s|l|m]; cbn [scalar_contrib Good]; try exact I.
+    - intros [i o]. reflexivity.
+    - intros c. cbn [R_tc tc_add fold_left]. destruct c as [i o]. unfold tc_append. cbn [tc_items tc_opt R_tc].
+      apply tys_exists_append_self_prim.
+    - intros c. cbn [R_tc tc_add fold_left]. destruct c as [i o]. unfold tc_append. cbn [tc_items tc_opt R_tc].
+      apply tys_exists_append_self_prim.
+    - intros c. cbn [R_tc tc_add fold_left]. destruct c as [i o]. unfold tc_append. cbn [tc_items tc_opt R_tc].
+      apply tys_exists_append_self_prim.
+    - intros c. cbn [tc_add]. cbn [strings_ok] in Hs. unfold string_ok in Hs.
+      set (c' := fold_left _ _ c). destruct c' as [i' o'] eqn:Ec'. cbn [R_tc]. unfold str_in.
+      assert (Hi : i' = tc_items c') by (rewrite Ec'; reflexivity).
+      destruct (kinds_cases s) as [Hin|(p & Hk & Hst)].
+      + apply orb_true_iff. left. rewrite Hi. subst c'. now apply fold_append_has with (p := PStr).
+      + apply orb_true_iff in Hs as [Hs|Hs].
+        * apply existsb_is_pstr in Hs. apply orb_true_iff. left. rewrite Hi. subst c'.
+          now apply fold_append_has with (p := PStr).
+        * apply orb_true_iff. right. rewrite Hi. subst c'. apply fold_append_has with (p := p).
+          -- rewrite Hk. now left.
+          -- cbn [str_member]. rewrite Hst. cbn [andb]. rewrite Hk in Hs. cbn [forallb] in Hs.
+             now apply andb_true_iff in Hs as [Hs _].
+  Qed.
+
+  (* ---- maps / lists with a processed prefix ---- *)
+  Fixpoint jm_app (a b : jmap) : jmap :=
+    match a with JMNil => b | JMCons k v r => JMCons k v (jm_app r b) end.
+  Fixpoint jl_app (a b : jlist) : jlist :=
+    match a with JLNil => b | JLCons v r => JLCons v (jl_app r b) end.
+
+  Lemma jm_app_assoc a k v r : jm_app (jm_app a (JMCons k v JMNil)) r = jm_app a (JMCons k v r).
+  Proof. induction a as [|k0 v0 a IH]; cbn [jm_app]; [reflexivity|now rewrite IH]. Qed.
+  Lemma jl_app_assoc a v r : jl_app (jl_app a (JLCons v JLNil)) r = jl_app a (JLCons v r).
+  Proof. induction a as [|v0 a IH]; cbn [jl_app]; [reflexivity|now rewrite IH]. Qed.
+
+  Lemma has_field_app f a b : has_field f (jm_app a b) = has_field f a || has_field f b.
+  Proof. induction a as [|k v a IH]; cbn [jm_app jm_has_field]; [reflexivity|now rewrite IH, orb_assoc]. Qed.
+  Lemma all_field_app f p a b : all_field f p (jm_app a b) = all_field f p a && all_field f p b.
+  Proof. induction a as [|k v a IH]; cbn [jm_app jm_all_field]; [reflexivity|now rewrite IH, andb_assoc]. Qed.
+  Lemma all_field_nohas f p a : has_field f a = false -> all_field f p a = true.
+  Proof.
+    induction a as [|k v a IH]; cbn [jm_has_field jm_all_field]; [reflexivity|]. intros H.
+    apply orb_false_iff in H as [H1 H2]. now rewrite H1, IH.
+  Qed.
+  Lemma jl_forallb_app p a b : jl_forallb p (jl_app a b) = jl_forallb p a && jl_forallb p b.
+  Proof. induction a as [|v a IH]; cbn [jl_app jl_forallb]; [reflexivity|now rewrite IH, andb_assoc]. Qed.
+
+  (* ---- one step of the PyDataclassGenerator loop ---- *)
+  Definition InvF (acc : flds) (done : jmap) : Prop :=
+    R_flds acc done = true /\ forall f, has_field f done = true -> flds_has f acc = true.
+
+  Lemma R_flds_other_key acc done k v :
+    flds_has (snake k) acc = false -> R_flds acc done = true -> R_flds acc (jm_app done (JMCons k v JMNil)) = true.
+  Proof.
+    induction acc as [|k0 c r IH]; [reflexivity|]. cbn [flds_has R_flds]. intros Hn H.
+    apply orb_false_iff in Hn as [Hn1 Hn2]. apply andb_true_iff in H as [H H3]. apply andb_true_iff in H as [H1 H2].
+    rewrite has_field_app, all_field_app, H1, H2, (IH Hn2 H3). cbn [jm_all_field jm_has_field orb andb].
+    now rewrite Hn1.
+  Qed.
+
+  Lemma obj_step acc done k v x :
+    InvF acc done -> Good x v -> flds_add_ok acc (snake k) x = true ->
+    InvF (flds_add acc (snake k) x) (jm_app done (JMCons k v JMNil)).
+  Proof.
+    intros [HR Hkeys] Hg Hok. unfold flds_add. destruct (flds_has (snake k) acc) eqn:Hh.
+    - split.
+      + clear Hkeys Hh. induction acc as [|k0 c r IH]; [reflexivity|].
+        cbn [flds_upd R_flds flds_add_ok] in *. apply andb_true_iff in HR as [HR HR3]. apply andb_true_iff in HR as [HR1 HR2].
+        apply andb_true_iff in Hok as [Hok1 Hok2]. rewrite (IH HR3 Hok2), andb_true_r.
+        rewrite has_field_app, HR1. cbn [orb andb]. rewrite all_field_app. cbn [jm_all_field]. rewrite andb_true_r.
+        destruct (pstr_eqb (snake k) k0) eqn:E; cbn [negb orb] in *.
+        * apply andb_true_iff. split.
+          -- eapply all_field_imp; [|exact HR2]. apply tc_add_le.
+          -- now apply good_add.
+        * now rewrite HR2.
+      + intros f Hf. rewrite flds_has_upd. rewrite has_field_app in Hf. cbn [jm_has_field] in Hf.
+        rewrite orb_false_r in Hf. apply orb_true_iff in Hf as [Hf|Hf]; [now apply Hkeys|].
+        apply pstr_eqb_eq in Hf. now subst.
+    - split.
+      + assert (Hold : R_flds acc (jm_app done (JMCons k v JMNil)) = true) by now apply R_flds_other_key.
+        assert (Hnew : has_field (snake k) (jm_app done (JMCons k v JMNil)) &&
+                       all_field (snake k) (R_tc (tc_add tc_empty x)) (jm_app done (JMCons k v JMNil)) = true).
+        { rewrite has_field_app, all_field_app. cbn [jm_has_field jm_all_field]. rewrite pstr_eqb_refl, orb_true_r.
+          cbn [andb negb orb]. rewrite andb_true_r. apply andb_true_iff. split.
+          - apply all_field_nohas. destruct (has_field (snake k) done) eqn:E; [|reflexivity].
+            rewrite (Hkeys _ E) in Hh. discriminate.
+          - apply good_add; [exact Hg|]. destruct x as [|ps|t]; try reflexivity. destruct t; reflexivity. }
+        clear - Hold Hnew. induction acc as [|k0 c r IH]; cbn [flds_snoc R_flds] in *.
+        * now rewrite Hnew.
+        * apply andb_true_iff in Hold as [H1 H2]. now rewrite H1, (IH H2).
+      + intros f Hf. rewrite flds_has_snoc. rewrite has_field_app in Hf. cbn [jm_has_field] in Hf.
+        rewrite orb_false_r in Hf. apply orb_true_iff in Hf as [Hf|Hf]; [now rewrite (Hkeys _ Hf)|].
+        apply pstr_eqb_eq in Hf. subst. now rewrite pstr_eqb_refl, orb_true_r.
+  Qed.
+
+  (* ---- one step of the PyListGenerator loop ---- *)
+  Lemma list_step_as_or c n r f : list_step c (CTy (TClass n r f)) = TC (list_or_step (tc_items c) (TClass n r f)) (tc_opt c).
+  Proof.
+    unfold list_step, list_or_step. destruct (model_of (tc_items c)) as [[[n0 r0] f1]|]; reflexivity.
+  Qed.
+
+  Lemma list_step_R c x v : list_step_ok c x = true -> Good x v ->
+    tc_le c (list_step c x) /\ R_tc (list_step c x) v = true.
+  Proof.
+    intros Hok Hg. destruct x as [|ps|t].
+    - split; [apply tc_add_le|apply Hg].
+    - split; [apply tc_add_le|apply Hg].
+    - destruct t as [p|n r f|d cn n c0].
+      + split; [apply tc_add_le|now apply good_add].
+      + rewrite list_step_as_or. cbn [Good] in Hg.
+        assert (Hok' : list_or_step_ok (tc_items c) (TClass n r f) = true) by exact Hok.
+        destruct (list_or_step_R (TClass n r f) (tc_items c) (proj1 merges_R _) Hok') as [Ss So].
+        destruct c as [i o]. cbn [tc_items tc_opt] in *. split.
+        * intros w H. apply R_tc_split in H as [[-> E]|H]; [exact E|]. now apply R_tc_Ri, Ss.
+        * now apply R_tc_Ri, So.
+      + split; [apply tc_add_le|now apply good_add].
+  Qed.
+
+  (* ---- the document ---- *)
+  Local Notation flds_of l := (fold_left (fun acc kx => flds_add acc (fst kx) (snd kx)) l).
+
+  Definition PJ (v : json) : Prop :=
+    str_ok v = true ->
+    match v with
+    | JObj m => forall lvl, obj_ok m lvl = true -> fields_ok (objc m lvl) = true ->
+                  R_flds (fields_of (objc m lvl)) m = true
+    | JArr l => forall nm root lvl, arr_ok l nm root lvl = true -> list_ok (arrc l nm root lvl) = true ->
+                  jl_forallb (R_tc (list_tc (arrc l nm root lvl))) l = true
+    | _ => True
+    end.
+  Definition PJL (l : jlist) : Prop :=
+    str_ok_l l = true -> forall nm root lvl acc done,
+      arr_ok l nm root lvl = true -> list_ok_from acc (arrc l nm root lvl) = true ->
+      jl_forallb (R_tc acc) done = true ->
+      jl_forallb (R_tc (fold_left list_step (arrc l nm root lvl) acc)) (jl_app done l) = true.
+  Definition PJM (m : jmap) : Prop :=
+    str_ok_m m = true -> forall lvl acc done,
+      obj_ok m lvl = true -> fields_ok_from acc (objc m lvl) = true -> InvF acc done ->
+      InvF (flds_of (objc m lvl) acc) (jm_app done m).
+
+  Lemma jm_app_nil a : jm_app a JMNil = a.
+  Proof. induction a as [|k v a IH]; cbn [jm_app]; [reflexivity|now rewrite IH]. Qed.
+  Lemma jl_app_nil a : jl_app a JLNil = a.
+  Proof. induction a as [|v a IH]; cbn [jl_app]; [reflexivity|now rewrite IH]. Qed.
+
+  Lemma good_obj m n r lvl : PJ (JObj m) -> str_ok_m m = true -> obj_ok m lvl = true ->
+    fields_ok (objc m lvl) = true -> Good (CTy (TClass n r (fields_of (objc m lvl)))) (JObj m).
+  Proof.
+    intros HP Hs Ho Hf. cbn [Good]. unfold head_R, Ri. cbn [R_tc R_obj]. now apply HP.
+  Qed.
+  Lemma good_arr l d cn n nm root lvl : PJ (JArr l) -> str_ok_l l = true -> arr_ok l nm root lvl = true ->
+    list_ok (arrc l nm root lvl) = true -> Good (CTy (TList d cn n (list_tc (arrc l nm root lvl)))) (JArr l).
+  Proof.
+    intros HP Hs Ho Hf. cbn [Good]. unfold head_R, Ri. cbn [R_tc R_arr]. now apply HP.
+  Qed.
+
+  Theorem doc_R : (forall v, PJ v) /\ (forall l, PJL l) /\ (forall m, PJM m).
+  Proof.
+    apply json_mutind; unfold PJ, PJL, PJM.
+    - easy.
+    - easy.
+    - easy.
+    - easy.
+    - easy.
+    - (* JArr *) intros l IH Hs nm root lvl Ho Hl. cbn [strings_ok] in Hs.
+      specialize (IH Hs nm root lvl tc_empty JLNil Ho Hl eq_refl). exact IH.
+    - (* JObj *) intros m IH Hs lvl Ho Hf. cbn [strings_ok] in Hs.
+      assert (H0 : InvF FNil JMNil) by (split; [reflexivity|discriminate]).
+      exact (proj1 (IH Hs lvl FNil JMNil Ho Hf H0)).
+    - (* JLNil *) intros _ nm root lvl acc done _ _ H. cbn [arr_contribs fold_left]. now rewrite jl_app_nil.
+    - (* JLCons *) intros v IHv r IHr Hs nm root lvl acc done Ho Hl Hd.
+      cbn [strings_ok_l] in Hs. apply andb_true_iff in Hs as [Hsv Hsr].
+      rewrite <- jl_app_assoc.
+      (* the contribution of v, its Good-ness, the rest *)
+      assert (Hstep : forall x lvl', Good x v -> arrc (JLCons v r) nm root lvl = x :: arrc r nm root lvl' ->
+                arr_ok r nm root lvl' = true ->
+                jl_forallb (R_tc (fold_left list_step (arrc (JLCons v r) nm root lvl) acc))
+                           (jl_app (jl_app done (JLCons v JLNil)) r) = true).
+      { intros x lvl' Hg Ex Hor. rewrite Ex in Hl |- *. cbn [list_ok_from fold_left] in *.
+        apply andb_true_iff in Hl as [Hl1 Hl2]. destruct (list_step_R acc x v Hl1 Hg) as [Hle Hv].
+        apply (IHr Hsr nm root lvl' _ _ Hor Hl2). rewrite jl_forallb_app. cbn [jl_forallb]. rewrite Hv, andb_true_r.
+        eapply jl_forallb_imp; [|exact Hd]. exact Hle. }
+      destruct v as [|b|z|iv r0|s|l|m]; cbn [arr_merges_ok] in Ho.
+      + apply (Hstep _ lvl (good_scalar JNull Hsv) eq_refl Ho).
+      + apply (Hstep _ lvl (good_scalar (JBool b) Hsv) eq_refl Ho).
+      + apply (Hstep _ lvl (good_scalar (JInt z) Hsv) eq_refl Ho).
+      + apply (Hstep _ lvl (good_scalar (JFloat iv r0) Hsv) eq_refl Ho).
+      + apply (Hstep _ lvl (good_scalar (JStr s) Hsv) eq_refl Ho).
+      + apply andb_true_iff in Ho as [Ho Ho3]. apply andb_true_iff in Ho as [Ho1 Ho2].
+        cbn [strings_ok] in Hsv.
+        eapply (Hstep _ (lvl + 1)%N); [|reflexivity|exact Ho3].
+        eapply good_arr; eauto.
+      + apply andb_true_iff in Ho as [Ho Ho3]. apply andb_true_iff in Ho as [Ho1 Ho2].
+        cbn [strings_ok] in Hsv.
+        eapply (Hstep _ lvl); [|reflexivity|exact Ho3].
+        eapply good_obj; eauto.
+    - (* JMNil *) intros _ lvl acc done _ _ H. cbn [obj_contribs fold_left]. now rewrite jm_app_nil.
+    - (* JMCons *) intros k v IHv r IHr Hs lvl acc done Ho Hf Hinv.
+      cbn [strings_ok_m] in Hs. apply andb_true_iff in Hs as [Hsv Hsr].
+      rewrite <- jm_app_assoc.
+      assert (Hstep : forall x lvl', Good x v -> objc (JMCons k v r) lvl = (snake k, x) :: objc r lvl' ->
+                obj_ok r lvl' = true ->
+                InvF (flds_of (objc (JMCons k v r) lvl) acc) (jm_app (jm_app done (JMCons k v JMNil)) r)).
+      { intros x lvl' Hg Ex Hor. rewrite Ex in Hf |- *. cbn [fields_ok_from fold_left fst snd] in *.
+        apply andb_true_iff in Hf as [Hf1 Hf2].
+        apply (IHr Hsr lvl' _ _ Hor Hf2). now apply obj_step. }
+      destruct v as [|b|z|iv r0|s|l|m]; cbn [obj_merges_ok] in Ho.
+      + apply (Hstep _ lvl (good_scalar JNull Hsv) eq_refl Ho).
+      + apply (Hstep _ lvl (good_scalar (JBool b) Hsv) eq_refl Ho).
+      + apply (Hstep _ lvl (good_scalar (JInt z) Hsv) eq_refl Ho).
+      + apply (Hstep _ lvl (good_scalar (JFloat iv r0) Hsv) eq_refl Ho).
+      + apply (Hstep _ lvl (good_scalar (JStr s) Hsv) eq_refl Ho).
+      + apply andb_true_iff in Ho as [Ho Ho3]. apply andb_true_iff in Ho as [Ho1 Ho2].
+        cbn [strings_ok] in Hsv.
+        eapply (Hstep _ (lvl + 1)%N); [|reflexivity|exact Ho3].
+        eapply good_arr; eauto.
+      + apply andb_true_iff in Ho as [Ho Ho3]. apply andb_true_iff in Ho as [Ho1 Ho2].
+        cbn [strings_ok] in Hsv.
+        eapply (Hstep _ lvl); [|reflexivity|exact Ho3].
+        eapply good_obj; eauto.
+  Qed.
+
+  (* ---- the roots ---- *)
+  Local Notation infer := (infer_root snake pascal sing as_date_ok as_time_ok as_datetime_ok isnumeric is_float bool_values fs).
+  Local Notation ssafe := (struct_safe snake pascal sing as_date_ok as_time_ok as_datetime_ok isnumeric is_float bool_values fs int_ok).
+  Local Notation acc_root := (accepts_root snake as_date_ok as_time_ok as_datetime_ok is_float bool_values int_ok).
+
+  Lemma tys_safe_model i n r f : tys_safe fs i = true -> model_of i = Some (n, r, f) -> flds_safe fs f = true.
+  Proof.
+    induction i as [|x rr IH]; cbn [tys_safe model_of]; [discriminate|]. intros H Hm.
+    apply andb_true_iff in H as [H1 H2]. destruct x; try (now apply IH).
+    injection Hm as -> -> ->. exact H1.
+  Qed.
+
+  Theorem loads j : ssafe j = true -> acc_root (infer j) j = true.
+  Proof.
+    unfold struct_safe. intros H. apply andb_true_iff in H as [Hs H].
+    destruct j as [|b|z|iv r0|s|l|m]; try discriminate.
+    - (* array root *)
+      apply andb_true_iff in H as [H H3]. apply andb_true_iff in H as [H1 H2].
+      pose proof (proj1 doc_R (JArr l) Hs _ _ _ H1 H2) as HR.
+      cbn [infer_root accepts_root]. set (c := list_tc _) in *.
+      unfold model_ty. destruct c as [i o] eqn:Ec. cbn [tc_items] in *.
+      destruct (model_of i) as [[[n r] f]|] eqn:Hm.
+      + eapply jl_forallb_imp; [|exact HR]. intros e He. destruct e; try reflexivity.
+        cbn [is_obj negb orb accepts_ty]. cbn [R_tc] in He. rewrite (R_obj_model _ _ _ _ _ Hm) in He.
+        apply R_flds_accepts; [|exact He]. eapply tys_safe_model; eauto.
+      + eapply jl_forallb_imp; [|exact HR]. intros e He. destruct e; try reflexivity.
+        cbn [R_tc] in He. now rewrite (R_obj_nomodel _ _ Hm) in He.
+    - (* object root *)
+      apply andb_true_iff in H as [H H3]. apply andb_true_iff in H as [H1 H2].
+      pose proof (proj1 doc_R (JObj m) Hs _ H1 H2) as HR.
+      cbn [infer_root accepts_root accepts_ty]. now apply R_flds_accepts.
+  Qed.
+
 End Robust.
+
+(* ------------------------------------------------ lattice of containers -- *)
+Lemma flds_keys_sub_of a b : (forall k, flds_has k a = true -> flds_has k b = true) -> flds_keys_sub a b = true.
+Proof.
+  induction a as [|k c r IH]; [reflexivity|]. cbn [flds_keys_sub flds_has]. intros H.
+  rewrite (H k) by now rewrite pstr_eqb_refl. apply IH. intros k' Hk. apply H. now rewrite Hk, orb_true_r.
+Qed.
+Lemma flds_keys_eqb_refl f : flds_keys_eqb f f = true.
+Proof. unfold flds_keys_eqb. now rewrite flds_keys_sub_of. Qed.
+
+Lemma ty_eqb_refl_prim p : ty_eqb (TPrim p) (TPrim p) = true.
+Proof. apply prim_eqb_refl. Qed.
+Lemma ty_eqb_refl_class n r f : ty_eqb (TClass n r f) (TClass n r f) = true.
+Proof. cbn [ty_eqb]. now rewrite pstr_eqb_refl, Bool.eqb_reflx, flds_keys_eqb_refl. Qed.
+
+Lemma tys_mem_snoc t l x : tys_mem t (tys_snoc l x) = tys_mem t l || ty_eqb t x.
+Proof.
+  induction l as [|y r IH]; cbn [tys_snoc tys_mem]; [now rewrite orb_false_r|]. now rewrite IH, orb_assoc.
+Qed.
+
+(* TypeContainer.append twice = once (for elements equal to themselves: all
+   primitives and dataclass generators; list generators whose JSON has unique keys) *)
+Lemma append_mem l t : ty_eqb t t = true -> tys_mem t (tys_append l t) = true.
+Proof.
+  intros H. unfold tys_append. destruct (tys_mem t l) eqn:E; [exact E|]. now rewrite tys_mem_snoc, H, orb_true_r.
+Qed.
+Lemma append_idem c t : ty_eqb t t = true -> tc_append (tc_append c t) t = tc_append c t.
+Proof.
+  intros H. destruct c as [i o]. unfold tc_append. cbn [tc_items tc_opt]. f_equal.
+  unfold tys_append at 1. now rewrite append_mem.
+Qed.
+
+Lemma tys_to_list_snoc l t : tys_to_list (tys_snoc l t) = tys_to_list l ++ [t].
+Proof. induction l as [|x r IH]; cbn [tys_snoc tys_to_list app]; [reflexivity|now rewrite IH]. Qed.
+
+Lemma prim_ty_eqb p q : ty_eqb (TPrim p) (TPrim q) = prim_eqb p q.
+Proof. reflexivity. Qed.
+Lemma prim_eqb_sym p q : prim_eqb p q = prim_eqb q p.
+Proof. destruct p, q; reflexivity. Qed.
+
+(* appending two primitives in either order yields the same members up to order *)
+Lemma append_perm l p q :
+  Permutation (tys_to_list (tys_append (tys_append l (TPrim p)) (TPrim q)))
+              (tys_to_list (tys_append (tys_append l (TPrim q)) (TPrim p))).
+Proof.
+  unfold tys_append.
+  destruct (tys_mem (TPrim p) l) eqn:Ep, (tys_mem (TPrim q) l) eqn:Eq;
+    rewrite ?Ep, ?Eq, ?tys_mem_snoc, ?Ep, ?Eq, ?prim_ty_eqb; cbn [orb]; try apply Permutation_refl.
+  destruct (prim_eqb q p) eqn:E.
+  - rewrite prim_eqb_sym, E. apply prim_eqb_eq in E. subst. apply Permutation_refl.
+  - rewrite prim_eqb_sym, E. rewrite !tys_to_list_snoc, <- !app_assoc. apply Permutation_app_head. cbn. apply perm_swap.
+Qed.
+
+Lemma or_keeps_optional a b : tc_opt (tc_or a b) = tc_opt a || tc_opt b.
+Proof.
+  destruct a as [ai ao], b as [bi bo]. destruct bi as [|t [|t' r']]; [reflexivity| |].
+  - destruct t as [p|n r f|d cn n [i2 o2]]; [reflexivity| |];
+      destruct ai as [|s [|s' r'']]; try reflexivity; destruct s as [?|? ? ?|? ? ? [? ?]]; reflexivity.
+  - destruct t as [p|n r f|d cn n [i2 o2]]; reflexivity.
+Qed.
+
+(* --------------------------------------------------------------- names -- *)
+Lemma lookup_decl_none n ds : mem_str n (map decl_name ds) = false -> lookup_decl n ds = None.
+Proof.
+  induction ds as [|d r IH]; [reflexivity|]. cbn [map mem_str lookup_decl]. intros H.
+  apply orb_false_iff in H as [H1 H2]. now rewrite (IH H2), H1.
+Qed.
+
+Lemma names_resolve ds : nodup_str (map decl_name ds) = true ->
+  forall d, In d ds -> lookup_decl (decl_name d) ds = Some d.
+Proof.
+  induction ds as [|d0 r IH]; [easy|]. cbn [map nodup_str]. intros H d [->|Hin].
+  - apply andb_true_iff in H as [H1 H2]. apply negb_true_iff in H1. cbn [lookup_decl].
+    now rewrite (lookup_decl_none _ _ H1), pstr_eqb_refl.
+  - apply andb_true_iff in H as [H1 H2]. cbn [lookup_decl]. now rewrite (IH H2 d Hin).
+Qed.
+
+Lemma names_safe_spec ident_ok reserved root_reserved ds :
+  names_safe ident_ok reserved root_reserved ds = true ->
+  (forall d, In d ds -> ident_ok (decl_name d) = true /\ mem_str (decl_name d) reserved = false /\
+                        forall ka, In ka (snd d) -> ident_ok (fst ka) = true /\
+                                                   (snd (fst d) = true -> mem_str (fst ka) root_reserved = false)) /\
+  (forall d, In d ds -> lookup_decl (decl_name d) ds = Some d).
+Proof.
+  unfold names_safe. intros H. apply andb_true_iff in H as [H1 H2]. split; [|now apply names_resolve].
+  intros d Hd. rewrite forallb_forall in H1. specialize (H1 d Hd). unfold decl_ok in H1.
+  apply andb_true_iff in H1 as [H1 H3]. apply andb_true_iff in H1 as [H1 H1'].
+  split; [exact H1|]. split; [now apply negb_true_iff in H1'|].
+  intros ka Hka. rewrite forallb_forall in H3. specialize (H3 ka Hka). apply andb_true_iff in H3 as [H3 H4].
+  split; [exact H3|]. intros Hr. rewrite Hr in H4. cbn [andb] in H4. now apply negb_true_iff in H4.
+Qed.
+
+(* ----------------------------------------------------------------- CLI -- *)
+Lemma cli_invalid_exit i before : cli_valid i = false ->
+  exists n, exit_code (cli_run i before) = Some n /\ n <> 0%N.
+Proof.
+  destruct i; try discriminate; intros _; [exists 2%N|exists 1%N|exists 1%N|exists 1%N]; split; try reflexivity; discriminate.
+Qed.
+Lemma cli_unreadable_intact before : out_file (cli_run InUnreadable before) = before.
+Proof. reflexivity. Qed.
+Lemma cli_valid_writes code before : cli_run (InDoc code) before = CliState (Some code) (Some 0%N).
+Proof. reflexivity. Qed.
+Lemma cli_truncates i before : cli_valid i = false -> i <> InUnreadable -> out_file (cli_run i before) = Some [].
+Proof. destruct i; try discriminate; try reflexivity. congruence. Qed.
